@@ -70,6 +70,7 @@ def generate(seed, tier):
         storage_kind = "file"
     rec = {"prop": ID, "seed": seed, "config": cfg.describe(), "storage_kind": storage_kind,
            "frontend": fe, "copy_to_ram": mrng.random() < 0.3,
+           "gc_tick": random.Random("%s/gcmode" % seed).choice((0, 0, 0.03, 0.1)),
            "policy": mrng.choice((["uniform"], ["sticky", 0.5], ["sticky", 0.9], ["sticky", 0.99],
                                   ["pct", mrng.randint(1, 3), mrng.choice((300, 1500, 4000))])),
            "schedule": None}
@@ -453,6 +454,7 @@ def execute(record, trace=False):
     pol = record.get("policy") or ["sticky", 0.9]
     s = C18Session(record["seed"], cfg=cfg, keep_log=trace, policy=tuple(pol),
                    replay_schedule=record.get("schedule"), storage_kind=record.get("storage_kind", "file"))
+    s.k.gc_tick_p = record.get("gc_tick", 0)
     fe = record["frontend"]
     try:
         try:
